@@ -709,6 +709,8 @@ def main(argv):
         programs=(static_res or {}).get("programs", 0), disagreements_checked=(static_res or {}).get("disagreements_checked", 0),
         static=(static_res or {}).get("summary"),
         explanation="Lean theorems about the executable model + differential correspondence of that model with the implementation",
+        repo_state=repo_state(),
+        statements_pinned=sum(1 for t in ob["theorems"] if t.get("stmt")),
     )
     ev = dict(property_id=prop, tier=tier, seed=seed, level=level, coverage=coverage,
               assumptions=(["soundness of rustc's borrow/region/trait checking", "the global allocator honours layouts"]
@@ -728,6 +730,19 @@ def main(argv):
     for line in violation_lines[:3]:
         print(line, flush=True)
     return 1 if violation_lines else 0
+
+
+def repo_state():
+    """What tree this run looked at: HEAD of /repo plus a hash of the uncommitted diff (the checks
+    always rebuild from the working tree, so a run on an edited tree says so in its evidence)."""
+    try:
+        head = subprocess.run(["git", "-C", REPO, "rev-parse", "HEAD"], stdout=subprocess.PIPE, text=True).stdout.strip()
+        diff = subprocess.run(["git", "-C", REPO, "diff", "HEAD"], stdout=subprocess.PIPE).stdout
+        untracked = subprocess.run(["git", "-C", REPO, "status", "--porcelain"], stdout=subprocess.PIPE, text=True).stdout.strip()
+        return dict(head=head, clean=(not diff and not untracked),
+                    working_tree_diff_sha256=(hashlib.sha256(diff).hexdigest() if diff else None))
+    except Exception as e:  # not a git checkout: say so, never fail the check for it
+        return dict(head=None, clean=None, note=str(e))
 
 
 def do_replay(prop, path):
